@@ -332,7 +332,14 @@ impl Property for C01 {
                                 // removed empty `use`, `pub(in super)` respelled `pub(super)`, ...);
                                 // such a case is not judged (development runs with VP_C01_GEN
                                 // report it)
-                                if std::env::var("VP_C01_GEN").is_ok() {
+                                // ... unless both comparisons stop at tokens that are neither
+                                // delimiters / separators (whose alignment is what the comparator
+                                // cannot always settle) nor canonicalised import leaves: an
+                                // identifier, operator, `#` or `::` standing against a different
+                                // one in both views is a real difference
+                                let soft = |t: &str| matches!(t, "(" | ")" | "{" | "}" | "[" | "]" | ";" | "," | "|" | "||") || t.contains(' ') || t.contains("::") && t.len() > 2;
+                                let hard = |msg: &str| mismatch_pair(msg).map(|(a, b)| !soft(&a) && !soft(&b)).unwrap_or(false);
+                                if std::env::var("VP_C01_GEN").is_ok() || (hard(&m.msg) && hard(&m2.msg)) {
                                     return fail(&format!("tokens+ast:{}", m2.class), format!("{}\npretty-printed ASTs differ as well: {}", m.msg, m2.msg), &o);
                                 }
                                 let mut sk = Outcome::skip("token-and-tree-comparison-undecided");
